@@ -213,6 +213,10 @@ def build(config, engine, repo=None, quiet=True):
                    '-o', exe + '.tmp', csrc, lib] + cfg['link'] + ENGINE_LINK.get(engine, []))
             _run(cmd, log=log)
             os.replace(exe + '.tmp', exe)
+        if engine == 'thrsim':
+            # blocks of library code that touch writable static storage which is not thread-local (race-directed parking)
+            from . import watch
+            watch.write(lib, exe)
         return exe
     finally:
         fcntl.flock(lock, fcntl.LOCK_UN)
